@@ -190,7 +190,7 @@ fn user_suspends(a: &Analysis, ent: usize, t: &Txn) -> Vec<(u64, u64)> {
 
 fn build(ctx: &Ctx, tier: Tier, seed: u64) -> Vec<Job<'static>> {
     let (cfgs, n_rand) = match tier {
-        Tier::Quick => (10, 12_000),
+        Tier::Quick => (24, 50_000),
         Tier::Thorough => (120, 600_000),
     };
     let root = ctx.root(997);
